@@ -48,6 +48,13 @@ class Live:
                 h["start"] = op["start"]
             return mk_hourly(h)
         if t == "setlink":
+            if op.get("via_wrapper"):
+                # the value as read from another object that already points to the target (`job_1.server = job_2.server`):
+                # what is assigned is that object's wrapper of the target, not the target itself
+                kind = op.get("kind") or kind_of(self.spec, op["name"])
+                holder = next((n for n, o in self.spec[kind].items() if n != op["name"] and o.get(op["attr"]) == op["target"]), None)
+                if holder is not None:
+                    return getattr(self.obj(holder), op["attr"])
             return self.obj(op["target"])
         if t == "setlist":
             return [self.obj(x) for x in op["items"]]
@@ -303,7 +310,7 @@ def gen_link_edit(rng, spec):
         cands = [s for s in spec["servers"] if s != spec["jobs"][j]["server"]]
         if not cands:
             return None
-        return {"op": "setlink", "kind": "jobs", "name": j, "attr": "server", "target": rng.choice(cands)}
+        return {"op": "setlink", "kind": "jobs", "name": j, "attr": "server", "target": rng.choice(cands), "via_wrapper": rng.random() < 0.5}
     if choice.startswith("pattern."):
         attr = choice.split(".")[1]
         pn = rng.choice(list(spec["patterns"]))
@@ -317,7 +324,7 @@ def gen_link_edit(rng, spec):
         cands = [x for x in spec[kind] if x != spec["patterns"][pn][attr]]
         if not cands:
             return None
-        return {"op": "setlink", "kind": "patterns", "name": pn, "attr": attr, "target": rng.choice(cands)}
+        return {"op": "setlink", "kind": "patterns", "name": pn, "attr": attr, "target": rng.choice(cands), "via_wrapper": rng.random() < 0.5}
     if choice == "step.jobs":
         s = rng.choice(list(spec["steps"]))
         jobs = list(spec["jobs"])
